@@ -1,5 +1,11 @@
 package dagaz
 
+import "sync"
+
+// State is the ground-plane state of a session. It is shared by the connections of all the
+// participants of the session, each handled by its own goroutine: mutex guards the spatial
+// partition and the planes it holds.
 type State struct {
+	mutex            sync.RWMutex
 	SpatialPartition SpatialPartition
 }
